@@ -88,6 +88,26 @@ def holdsStream (me : Bytes) (evs : List Ev) (tail : Tail) (ps : List Nat) (o : 
   checkReads eofOk (!eofOk) e.1 ps o.reads &&
   (!eofOk || !o.rbroken) && !o.wbroken
 
+/-- Shape of a sequence of read results, whatever was owed: at most `p` bytes, at least one when `p > 0`,
+end-of-stream for ever once returned, nothing after an error. -/
+def wellShaped : List Nat → List RRes → Bool
+  | _, [] => true
+  | [], _ :: _ => false
+  | p :: ps, .data d :: rs => decide (d.length ≤ p) && (p == 0 || !d.isEmpty) && wellShaped ps rs
+  | _ :: _, .eof :: rs => rs.all (· == .eof)
+  | _ :: _, .err _ :: rs => rs.isEmpty
+  | _ :: _, .fuel :: _ => false
+
+/-- **The stream property on a connection that was cut at an arbitrary byte offset** (a transport
+fault, outside what the property promises about completeness): the sender's `Write`s were all
+answered as on an intact connection, and what the receiver's `Read` calls returned is still a prefix
+of the bytes written for the tunnel — unchanged, in order, nothing of a foreign or half-received
+frame —, in well-shaped results. -/
+def holdsCut (me : Bytes) (evs : List Ev) (ps : List Nat) (o : StObs) : Bool :=
+  o.writes == expectedWrites true evs &&
+  (delivered o.reads).isPrefixOf (expected me evs).1 &&
+  wellShaped ps o.reads && !o.wbroken
+
 /-- **Both directions on an observation**: the forward phase satisfies the stream property; in the
 reverse phase (B writes on the stream it has just read from, A reads on the stream it has written to)
 B's writes are accepted iff B had not half-closed before, A is given exactly what B sent for the tunnel
